@@ -9,6 +9,7 @@ import Cctz.Model.Fixed
 import Cctz.Model.Posix
 import Cctz.Model.Tz
 import Cctz.Model.Split
+import Cctz.Model.Loader
 
 open Cctz
 
@@ -20,6 +21,7 @@ structure ZEntry where
 structure DState where
   zones : List (String × ZEntry) := []
   failed : List String := []
+  files : List (Bytes × Bytes) := []     -- the file system the `resolve` op sees: path ↦ contents
 
 def DState.find (st : DState) (id : String) : Option ZEntry := (st.zones.find? (·.1 == id)).map (·.2)
 def DState.set (st : DState) (id : String) (e : ZEntry) : DState :=
@@ -280,6 +282,104 @@ def zoneOp (st : DState) (toks : List String) : Option (DState × String) :=
       some (st.set id { e with btHint := a, mtHint := b }, "ok")
   | _ => none
 
+
+/-! ### loader state machine and name resolution -/
+
+/-- a minimal valid TZif (version 1, one type: UTC) -/
+def tinyZone : Bytes :=
+  [84, 90, 105, 102, 0] ++ List.replicate 15 0 ++
+  [0,0,0,0, 0,0,0,0, 0,0,0,0, 0,0,0,0, 0,0,0,1, 0,0,0,4] ++ [0,0,0,0, 0, 0] ++ [85, 84, 67, 0]
+
+def schedName (tok : String) : Option Bytes :=
+  match tok.toList with
+  | 'u' :: '0' :: [] => some (Bytes.ofString "UTC0")
+  | 'u' :: [] => some (Bytes.ofString "UTC")
+  | 'f' :: rest => do
+      let off ← (String.ofList rest).toInt?
+      let n := Fixed.toName off
+      if n.flags.any then none else some n.val
+  | _ => some (Bytes.ofString ("blk:" ++ tok))
+
+def schedWorld : Loader.World :=
+  { data := fun n =>
+      match (n.drop 4).headD 0 with
+      | 118 => some tinyZone        -- 'v…': present and valid
+      | 120 => some [0]             -- 'x…': present, rejected
+      | _ => none }                 -- anything else: the factory returns nullptr
+
+def classesOf (ids : List Loader.Ident) : List Nat :=
+  let rec go (l : List Loader.Ident) (seen : List Loader.Ident) : List Nat :=
+    match l with
+    | [] => []
+    | i :: rest =>
+      if i == .utc then 0 :: go rest seen
+      else match seen.idxOf? i with
+        | some k => (k + 1) :: go rest seen
+        | none => (seen.length + 1) :: go rest (seen ++ [i])
+  go ids []
+
+def loaderOp (st : DState) (toks : List String) : Option (DState × String) :=
+  match toks with
+  | ["sched", names, events] => do
+      let names ← (names.splitOn ",").mapM schedName
+      let evs ← (events.splitOn ",").mapM fun e =>
+        match e.toList with
+        | 'S' :: r => (String.ofList r).toNat?.map fun i => (true, i)
+        | 'R' :: r => (String.ofList r).toNat?.map fun i => (false, i)
+        | _ => none
+      let w := schedWorld
+      -- `S i`: thread i runs until it is blocked inside the factory or has returned;
+      -- `R i`: the factory returns for thread i, which then runs to completion
+      let s := evs.foldl (fun (s : Loader.LState) (ev : Bool × Nat) =>
+        let i := ev.2
+        if ev.1 then
+          let s2 := Loader.step w (Loader.step w s i) i
+          match (s2.threads[i]?.map (·.pc) : Option Loader.PC) with
+          | some (Loader.PC.built _ _) => Loader.step w s2 i
+          | _ => s2
+        else Loader.run w s [i, i]) (Loader.initState names)
+      let res := s.threads.map fun t => match t.pc with
+        | .done ok id => (if ok then "1" else "0", id)
+        | _ => ("?", Loader.Ident.utc)
+      let cls := classesOf (res.map (·.2))
+      let logS := s.log.map fun (τ, _) => toString τ
+      some (st, s!"{String.intercalate "," (res.map (·.1))} {String.intercalate "," (cls.map toString)} {if logS.isEmpty then "-" else String.intercalate "," logS} {s.maxActive}")
+  | ["stress", k, _iters, _seed] =>
+      -- results of concurrent use equal those of a single-threaded replay (the theorem C13.result_is_sequential
+      -- together with C14.history_irrelevant); the harness measures it on the real code
+      some (st, s!"stress threads={k} differing=0")
+  | ["fsfile", path, hex] => do
+      let p ← Bytes.ofHex path
+      let b ← Bytes.ofHex hex
+      some ({ st with files := (p, b) :: st.files.filter (·.1 != p) }, "ok")
+  | ["resolve", tzdir, tz, localtime, mode, namehex] => do
+      let opt (s : String) : Option (Option Bytes) := if s == "~" then some none else (Bytes.ofHex s).map some
+      let tzdir ← opt tzdir; let tz ← opt tz; let localtime ← opt localtime
+      let name ← Bytes.ofHex namehex
+      let name := if mode == "local" then Loader.localZoneName tz localtime else name
+      -- load_time_zone(name)
+      let finish (ok : Bool) (shown : Bytes) (z : Option Tz.Zone) : String :=
+        let fp (z : Tz.Zone) (t : Int) : String :=
+          let r := Tz.breakTime z 0 t
+          s!"{r.val.1.offset}:{Bytes.toHex r.val.1.abbr}"
+        match z with
+        | some z => s!"{if ok then 1 else 0} {Bytes.toHex shown} {fp z 0} {fp z 1700000000}"
+        | none => s!"0 {Bytes.toHex (Bytes.ofString "UTC")} 0:555443 0:555443"
+      match Fixed.fromName name with
+      | some 0 => some (st, finish true (Bytes.ofString "UTC") (some (Tz.resetToBuiltinUTC 0).val))
+      | some off => some (st, finish true name (some (Tz.resetToBuiltinUTC off).val))
+      | none =>
+        if Loader.isLibcName name then some (st, "libc")
+        else
+          let path := Bytes.cstr (Loader.openPath name tzdir)
+          match st.files.lookup path with
+          | none => some (st, finish false [] none)
+          | some bytes =>
+            match (Tz.load {} bytes).val with
+            | .ok z => some (st, finish true name (some z))
+            | _ => some (st, finish false [] none)
+  | _ => none
+
 def handle (st : DState) (line : String) : DState × String :=
   let toks := (line.trimAscii.toString.splitOn " ").filter (· ≠ "")
   match toks with
@@ -293,7 +393,10 @@ def handle (st : DState) (line : String) : DState × String :=
       | none =>
         match zoneOp st toks with
         | some (st', r) => (st', r)
-        | none => (st, "bad-op")
+        | none =>
+          match loaderOp st toks with
+          | some (st', r) => (st', r)
+          | none => (st, "bad-op")
 
 partial def loop (hin : IO.FS.Stream) (hout : IO.FS.Stream) (st : DState) : IO Unit := do
   let line ← hin.getLine
